@@ -14,6 +14,8 @@ struct mock_script
     int sto_fail_at[MOCK_NDEV];      // append call index (per run) that fails; -1 = never
     int sto_fail_persistent;
     int cam_empty_every;             // every n-th get_frame returns 0 bytes (aborted write); 0 = never
+    int sto_start_fails[MOCK_NDEV];  // number of upcoming storage starts that fail (the device answers AwaitingConfiguration)
+    int sto_stop_await[MOCK_NDEV];   // the storage answers AwaitingConfiguration to stop(): it must be configured again before the next start
     int cam_start_fails[MOCK_NDEV];  // number of upcoming camera starts that fail
     int desc_fails[MOCK_NDEV];       // number of upcoming opens of this device whose describe() fails after a successful open()
     int just_opened[MOCK_NDEV];
@@ -29,7 +31,9 @@ struct mock_dev_state
     unsigned long delivered, delivered_total, stored;
     // protocol violations observed by the driver itself (C08 / C09 / C11 oracles)
     unsigned calls_after_close, double_open, double_close, closed_while_running, start_while_running,
-      stop_without_start, frame_outside_running, append_outside_running, append_after_failure, frame_after_failure;
+      stop_without_start, frame_outside_running, append_outside_running, append_after_failure, frame_after_failure,
+      start_unconfigured;   // start() on a storage that had answered AwaitingConfiguration and was not configured since
+    int needs_config;
 };
 const struct mock_dev_state* mock_dev(int dev);
 unsigned char mock_pixel(int dev, unsigned run, uint64_t frame, size_t i);
